@@ -1300,3 +1300,22 @@ def np_allclose(ctx, a, b, rtol=None, atol=None):
     if isinstance(r, Arr):
         return _quant(ctx, r, None, 'all', named=True)
     return r
+
+
+@lib('numpy.polyval')
+def np_polyval(ctx, p, x):
+    p = arr(ctx, p)
+    if p.ndim != 1 or S.is_z3(p.shape[0]):
+        raise Unsupported('polyval with symbolic order')
+    coeffs = [p.at((k,)) for k in range(p.shape[0])]
+    f = lambda v: _horner(coeffs, v)
+    if isinstance(x, Arr):
+        return A.elementwise(ctx, f, [x], dtype='float')
+    return f(x)
+
+
+def _horner(coeffs, v):
+    out = 0
+    for c in coeffs:
+        out = S.add(S.mul(out, v), c)
+    return out
